@@ -131,7 +131,17 @@ def _oracle_job(pp, job):
                     # leading whitespace where a root whose callPreparse is off - SkipTo over alternatives - keeps it
                     # in its skipped text, so the token lists may legitimately differ)
                     if (se[0] == "ok") != (pall[0] == "ok"):
-                        rec("parse_all == (expr + StringEnd())", s, pall, se, sig="parse_all_vs_stringend_ignorables" if has_ign else None)
+                        # the registered finding is exactly: parse_all skips trailing *ignorable text* that the appended
+                        # StringEnd does not know about - the unparsed tail is then not blank
+                        sig = None
+                        if has_ign and pall[0] == "ok" and se[0] == "exc":
+                            try:
+                                end = root._parse(parsed, 0)[0]
+                                if parsed[end:].strip(" \t\r\n") != "":
+                                    sig = "parse_all_vs_stringend_ignorables"
+                            except Exception:  # noqa
+                                pass
+                        rec("parse_all == (expr + StringEnd())", s, pall, se, sig=sig)
                 # --- scan_string ------------------------------------------------------------------------
                 full = _res(pp, lambda: [(t.as_list(), a, b) for t, a, b in root.scan_string(s)])
                 if full[0] == "ok":
@@ -202,10 +212,12 @@ def run_oracle(ctx, stream, jobs):
                     outcomes={"inputs": n, "mismatch": len(bad)},
                     samples=[{"prog": jobs[0]["prog"], "root": jobs[0]["root"], "input": jobs[0]["inputs"][0]}] if jobs else [])
     seen = set()
-    for m in bad:
-        if m["clause"] in seen or len(seen) >= 3:
+    for m in sorted(bad, key=lambda m: (m["sig"] is not None, len(m["prog"]), len(m["input"]))):
+        # one report per (clause, known-finding signature): a registered finding must never mask another violation of
+        # the same clause
+        if (m["clause"], m["sig"]) in seen or len([k for k in seen if k[1] is None]) >= 3:
             continue
-        seen.add(m["clause"])
+        seen.add((m["clause"], m["sig"]))
         ctx.fail_input(m["clause"], {k: m[k] for k in ("prog", "root", "input", "clause")}, m["expected"], m["actual"],
                        theorem="C08 statement (oracle)", signature=m["sig"], how="harness.props.c08.oracle_job")
 
